@@ -1,9 +1,391 @@
+/-
+C17 driver: one line of harness/cmd/c17 → the model's observation and the Spec verdict on the implementation's one.
+
+input : kind=… root=… path=… exp=reject|accept|value|cast|disc|none at=<Go field path> fk=<kind> raw=s(text)
+        want=<value> env=m(…) props=m(file,m(…)) cfg=<value> sch=<schema>
+obs   : err=<classes> | late=<classes> | ok val=<decoded value> | ok disc=<bool,…>
+-/
 import Pandora.Drv.Util
+import Pandora.Model.C17
+import Pandora.Spec.C17
 
 namespace Pandora.Drv.C17
-open Pandora.Drv
+open Pandora.Drv Pandora.Model.C17 Pandora.Spec.C17
 
-/-- stub: replaced when the property's model driver is written -/
-def handle : Handler := fun _ _ => ("-", "skip:not-built")
+/-! ## terms -/
+
+inductive Term
+  | mk (name : String) (args : List Term)
+  deriving Inhabited
+
+def Term.name : Term → String | .mk n _ => n
+def Term.args : Term → List Term | .mk _ a => a
+
+def hexVal (c : Char) : Nat := (hexDigit c).getD 0
+
+/-- percent-decoding -/
+def decodeAtom (cs : List Char) : List Char :=
+  let rec go : List Char → List Char → List Char
+    | '%' :: a :: b :: r, acc => go r (Char.ofNat (hexVal a * 16 + hexVal b) :: acc)
+    | c :: r, acc => go r (c :: acc)
+    | [], acc => acc.reverse
+  go cs []
+
+partial def parseTermAt (a : Array Char) (i : Nat) : Term × Nat :=
+  let rec atomEnd (j : Nat) : Nat :=
+    if h : j < a.size then
+      let c := a[j]
+      if c == '(' || c == ')' || c == ',' then j else atomEnd (j + 1)
+    else j
+  let j := atomEnd i
+  let name := String.ofList (decodeAtom (a.extract i j).toList)
+  if j < a.size && a[j]! == '(' then
+    if j + 1 < a.size && a[j+1]! == ')' then (.mk name [], j + 2)
+    else
+      let rec argsLoop (k : Nat) (acc : List Term) : List Term × Nat :=
+        let (t, k') := parseTermAt a k
+        if k' < a.size && a[k']! == ',' then argsLoop (k' + 1) (t :: acc)
+        else ((t :: acc).reverse, k' + 1)
+      let (args, k) := argsLoop (j + 1) []
+      (.mk name args, k)
+  else (.mk name [], j)
+
+def parseTerm (s : String) : Term := (parseTermAt s.toList.toArray 0).1
+
+/-! ## terms → model types -/
+
+instance : Inhabited Val := ⟨.null⟩
+instance : Inhabited DVal := ⟨.nil⟩
+instance : Inhabited Schema := ⟨.opaque⟩
+instance : Inhabited Fields := ⟨.nil⟩
+instance : Inhabited Alts := ⟨.nil⟩
+
+def strOf (t : Term) : Str := t.name.toList
+
+/-- `s()` / `s(text)` -/
+def sArg (t : Term) : Str :=
+  match t.args with
+  | [a] => strOf a
+  | _ => []
+
+def parseDecText (s : String) : Dec := (parseDecLit s.toList).getD ⟨false, 0, 0⟩
+
+partial def toVal (t : Term) : Val :=
+  match t.name with
+  | "n" => .null
+  | "b" => .bool ((t.args.head?.map Term.name) == some "true")
+  | "i" => .int ((t.args.head?.bind fun a => a.name.toInt?).getD 0)
+  | "d" => .float (parseDecText ((t.args.head?.map Term.name).getD "0"))
+  | "s" => .str (sArg t)
+  | "l" => .list (t.args.map toVal)
+  | "m" => .map (pairs t.args)
+  | _ => .null
+where
+  pairs : List Term → List (Str × Val)
+    | k :: v :: r => (strOf k, toVal v) :: pairs r
+    | _ => []
+
+partial def toDVal (t : Term) : DVal :=
+  match t.name with
+  | "b" => .bool ((t.args.head?.map Term.name) == some "true")
+  | "i" => .int ((t.args.head?.bind fun a => a.name.toInt?).getD 0)
+  | "u" => .uint ((t.args.head?.bind fun a => a.name.toNat?).getD 0)
+  | "d" => .float (parseDecText ((t.args.head?.map Term.name).getD "0"))
+  | "s" => .str (sArg t)
+  | "nil" => .nil
+  | "st" => .struct (pairs t.args)
+  | "ptr" => .ptr ((t.args.head?.map toDVal).getD .nil)
+  | "l" => .slice (t.args.map toDVal)
+  | "m" => .map (pairs t.args)
+  | "any" => .any ((t.args.head?.map toVal).getD .null)
+  | "P" => .plugin
+  | "F" => .factory
+  | "sp" => .special (sArg t)
+  | _ => .opaque
+where
+  pairs : List Term → List (Str × DVal)
+    | k :: v :: r => (strOf k, toDVal v) :: pairs r
+    | _ => []
+
+def toTag (t : Term) : VTag :=
+  let s := t.name
+  if s == "required" then .required
+  else if s == "endpoint" then .endpoint
+  else if s == "dive" then .dive
+  else if s == "omitempty" then .omitempty
+  else if s.startsWith "min=" then
+    match (s.drop 4).toString.toInt? with
+    | some n => .min n
+    | none => .other s.toList
+  else if s.startsWith "min-time=" then
+    match parseDuration (s.drop 9).toString.toList with
+    | some ns => .minTime ns
+    | none => .other s.toList
+  else if s.startsWith "eq=" then
+    -- eq=a|eq=b|eq=c
+    .oneOf ((s.splitOn "|").map fun p => (if p.startsWith "eq=" then (p.drop 3).toString else p).toList)
+  else .other s.toList
+
+def toKindDefault (t : Term) : Option (Kind × DVal) :=
+  let a (i : Nat) : String := (t.args[i]?.map Term.name).getD ""
+  match t.name with
+  | "bool" => some (.bool, .bool (a 0 == "true"))
+  | "str" => some (.str, .str ((t.args.head?.map sArg).getD []))
+  | "int" => some (.int ((a 0).toNat?.getD 64), .int ((a 1).toInt?.getD 0))
+  | "uint" => some (.uint ((a 0).toNat?.getD 64), .uint ((a 1).toNat?.getD 0))
+  | "float" => some (.float ((a 0).toNat?.getD 64), .float (parseDecText (a 1)))
+  | "dur" => some (.dur, .int ((a 0).toInt?.getD 0))
+  | _ => none
+
+mutual
+partial def toSchema (t : Term) : Schema :=
+  match toKindDefault t with
+  | some (k, d) => .scalar k d
+  | none =>
+    match t.name, t.args with
+    | "st", fs => .struct (toFields fs)
+    | "ptr", [n, s] => .ptr (n.name == "nil") (toSchema s)
+    | "sl", [e, d] => .slice (toSchema e) (toDVal d)
+    | "mp", [e, d] =>
+      .map (toSchema e) (match toDVal d with | .map kvs => some kvs | _ => none)
+    | "any", [d] => .any (toDVal d)
+    | "pl", [_, k, h, n, alts, names] =>
+      .plugin
+        { factory := k.name == "f"
+          hook := if h.name == "sink" then .sink else if h.name == "sched" then .sched else .none
+          dfltSet := n.name == "set"
+          names := names.args.map strOf }
+        (toAlts alts.args)
+    | "special", [_, r] => .special (strOf r)
+    | _, _ => .opaque
+partial def toFields : List Term → Fields
+  | [] => .nil
+  | f :: rest =>
+    match f.args with
+    | [name, key, x, q, v, s] =>
+      .cons { name := strOf name, key := strOf key, settable := x.name == "x", squash := q.name == "q",
+              tags := v.args.map toTag } (toSchema s) (toFields rest)
+    | _ => toFields rest
+partial def toAlts : List Term → Alts
+  | [] => .nil
+  | a :: rest =>
+    match a.args with
+    | [n, m, s] => .cons (strOf n) (m.name == "lazy") (toSchema s) (toAlts rest)
+    | _ => toAlts rest
+end
+
+def toEnv (env props : Term) : Env :=
+  let rec pairs : List Term → List (Str × Str)
+    | k :: v :: r => (strOf k, sArg v) :: pairs r
+    | _ => []
+  let rec files : List Term → List (Str × List (Str × Str))
+    | k :: v :: r => (strOf k, pairs v.args) :: files r
+    | _ => []
+  { vars := pairs env.args, files := files props.args }
+
+/-! ## printing (must agree byte for byte with harness/cmd/c17 `dval`, `rawVal`, `enc`) -/
+
+def hexU (n : Nat) : Char := if n < 10 then Char.ofNat (n + 48) else Char.ofNat (n - 10 + 65)
+
+def encStr (s : Str) : String :=
+  String.ofList (s.flatMap fun c =>
+    if c.isAlphanum || "_./:#${}@+*=[]-".toList.contains c then [c]
+    else ['%', hexU (c.toNat / 16), hexU (c.toNat % 16)])
+
+def sTerm (s : Str) : String := if s.isEmpty then "s()" else "s(" ++ encStr s ++ ")"
+
+/-- `strconv.FormatFloat(f, 'f', -1, 64)` for a terminating decimal -/
+def decText (d : Dec) : String :=
+  -- strip trailing zeros of the fraction
+  let rec strip (m e : Nat) (fuel : Nat) : Nat × Nat :=
+    match fuel with
+    | 0 => (m, e)
+    | fuel + 1 => if e > 0 && m % 10 == 0 then strip (m / 10) (e - 1) fuel else (m, e)
+  let (m, e) := strip d.mant d.exp d.exp
+  let sign := if d.neg && m != 0 then "-" else ""
+  if e == 0 then sign ++ toString m
+  else
+    let ip := m / 10 ^ e
+    let fp := toString (m % 10 ^ e)
+    let pad := String.ofList (List.replicate (e - fp.length) '0')
+    sign ++ toString ip ++ "." ++ pad ++ fp
+
+def node (n : String) (args : List String) : String := n ++ "(" ++ ",".intercalate args ++ ")"
+
+partial def valText : Val → String
+  | .null => "n"
+  | .bool b => node "b" [toString b]
+  | .int i => node "i" [toString i]
+  | .float d => node "d" [decText d]
+  | .str s => sTerm s
+  | .list xs => node "l" (xs.map valText)
+  | .map kvs =>
+    let sorted := kvs.toArray.qsort (fun a b => String.ofList a.1 < String.ofList b.1) |>.toList
+    node "m" (sorted.flatMap fun kv => [encStr kv.1, valText kv.2])
+
+partial def dvalText : DVal → String
+  | .bool b => node "b" [toString b]
+  | .int i => node "i" [toString i]
+  | .uint n => node "u" [toString n]
+  | .float d => node "d" [decText d]
+  | .str s => sTerm s
+  | .nil => "nil"
+  | .struct fs => node "st" (fs.flatMap fun f => [encStr f.1, dvalText f.2])
+  | .ptr v => node "ptr" [dvalText v]
+  | .slice xs => node "l" (xs.map dvalText)
+  | .map kvs =>
+    let sorted := kvs.toArray.qsort (fun a b => String.ofList a.1 < String.ofList b.1) |>.toList
+    node "m" (sorted.flatMap fun kv => [encStr kv.1, dvalText kv.2])
+  | .any v => node "any" [valText v]
+  | .plugin => "P"
+  | .factory => "F"
+  | .special r => node "sp" [encStr r]
+  | .opaque => "x"
+
+def errName : ErrC → String
+  | .unused => "unused" | .type => "type" | .plugintype => "plugintype" | .pluginname => "pluginname"
+  | .validate => "validate" | .resolve => "resolve" | .castkind => "castkind" | .parse => "parse"
+
+def classesText (es : List ErrC) : String :=
+  let names := (es.map errName).eraseDups.toArray.qsort (· < ·) |>.toList
+  "+".intercalate names
+
+/-! ## does the configuration touch something the model does not describe? -/
+
+mutual
+/-- a non-null value decoded into a `special` (library text type) or pruned / opaque position -/
+partial def touchesUnmodelled : Schema → Val → Bool
+  | _, .null => false
+  | .special _, _ => true
+  | .opaque, _ => true
+  | .struct fs, .map kvs => touchesFields fs kvs
+  | .ptr _ s, v => touchesUnmodelled s v
+  | .slice e _, .list xs => xs.any (touchesUnmodelled e)
+  | .map e _, .map kvs => kvs.any fun kv => touchesUnmodelled e kv.2
+  | .plugin pi alts, v =>
+    let v' : Val :=
+      match v with
+      | .str s => if pi.hook == .sink then .map (sinkMap s) else v
+      | .list xs => if pi.hook == .sched then .map [("type".toList, .str "composite".toList), ("nested".toList, .list xs)] else v
+      | w => w
+    match v' with
+    | .map kvs =>
+      match typeEntries kvs with
+      | [.str name] => touchesAlts alts name (.map (dropType kvs))
+      | _ => false
+    | _ => false
+  | _, _ => false
+partial def touchesFields : Fields → List (Str × Val) → Bool
+  | .nil, _ => false
+  | .cons f s rest, kvs =>
+    (match (if f.settable then findKey kvs f.key else none) with
+     | some (_, v) => touchesUnmodelled s v
+     | none => false) || touchesFields rest kvs
+partial def touchesAlts : Alts → Str → Val → Bool
+  | .nil, _, _ => false
+  | .cons n _ s rest, name, v => if n == name then touchesUnmodelled s v else touchesAlts rest name v
+end
+
+/-! ## the handler -/
+
+def parseKind (s : String) : Option Kind :=
+  match s.splitOn ":" with
+  | ["bool"] => some .bool
+  | ["str"] => some .str
+  | ["dur"] => some .dur
+  | ["int", b] => b.toNat?.map Kind.int
+  | ["uint", b] => b.toNat?.map Kind.uint
+  | ["float", b] => b.toNat?.map Kind.float
+  | _ => none
+
+def parseAt (s : String) : Option (List Str) :=
+  let d := String.ofList (decodeAtom s.toList)
+  if d == "-" then none else if d == "." then some [] else some ((d.splitOn ".").map String.toList)
+
+def discOf (v : DVal) : List Bool :=
+  match Spec.C17.lookup ["Pools".toList] v with
+  | some (.slice ps) =>
+    ps.filterMap fun p =>
+      match Spec.C17.lookup ["DiscardOverflow".toList] p with
+      | some (.bool b) => some b
+      | _ => none
+  | _ => []
+
+def boolsText (bs : List Bool) : String := ",".intercalate (bs.map toString)
+
+/-- the implementation's observation, parsed -/
+def parseObs (impl : String) : Obs :=
+  if impl.startsWith "err=" || impl.startsWith "late=" then
+    if (impl.splitOn "ctor").length > 1 || (impl.splitOn "other").length > 1 then .unknown else .rejected
+  else if impl.startsWith "ok val=" then .accepted (some (toDVal (parseTerm (impl.drop 7).toString)))
+  else if impl.startsWith "ok disc=" then
+    let t := (impl.drop 8).toString
+    .discards (if t.isEmpty then [] else (t.splitOn ",").map (· == "true"))
+  else .unknown
+
+def failKey (kind : String) (why : String) : String :=
+  let base :=
+    if kind == "unknown" || kind == "misspelled" then "unknown-key-accepted"
+    else if kind == "mistyped" then "mistyped-accepted"
+    else if kind == "oor" || kind == "doc" then "constraint-accepted"
+    else if kind == "ph-unset" || kind == "ph-noprop" || kind == "ph-nofile" then "placeholder-missing-accepted"
+    else if kind == "null" || kind == "base" then "default-lost"
+    else if kind.startsWith "ph-" then "placeholder-cast"
+    else if kind.startsWith "plugin-" then "plugin-position"
+    else if kind == "cli" then "cli-reader"
+    else "valid-config"
+  s!"fail:{base}:{why}"
+
+def handle : Handler := fun input impl =>
+  let kv := parseKV input
+  let kind := getS kv "kind"
+  let sch := normalize (toSchema (parseTerm (getS kv "sch")))
+  let cfg := toVal (parseTerm (getS kv "cfg"))
+  let env := toEnv (parseTerm (getS kv "env" "m()")) (parseTerm (getS kv "props" "m()"))
+  let isCli := kind == "cli"
+  -- model
+  let out := if isCli then cliRead repoFlags env sch cfg else decodeAndValidate repoFlags env sch cfg
+  let unmodelled := touchesUnmodelled sch cfg
+  let obs := parseObs impl
+  let modelObs : String :=
+    match out with
+    | .err es => "err=" ++ classesText es
+    | .late es => if isCli then "ok disc=" ++ "?" else "late=" ++ classesText es
+    | .ok v => if isCli then "ok disc=" ++ boolsText (discOf v) else "ok val=" ++ dvalText v
+  let modelObs :=
+    match out, isCli with
+    | .late _, true =>
+      -- the CLI reader does not call factories: accepted; the pools' flags come from the decoded value
+      let r := decode repoFlags env sch (defaultDiscard cfg)
+      "ok disc=" ++ boolsText (discOf r.val)
+    | _, _ => modelObs
+  -- expectation
+  let at_ := parseAt (getS kv "at" "-")
+  let expect : Expect :=
+    match getS kv "exp" with
+    | "reject" => .reject
+    | "accept" => .accept
+    | "value" => .value at_ (toDVal (parseTerm (getS kv "want")))
+    | "cast" =>
+      match parseKind (getS kv "fk") with
+      | some k => .cast at_ k (sArg (parseTerm (getS kv "raw")))
+      | none => .nothing
+    | "disc" =>
+      match expectDisc cfg with
+      | some ds => .disc ds
+      | none => .nothing
+    | _ => .nothing
+  let verdict : String :=
+    match holds expect obs with
+    | .ok => "ok"
+    | .inconclusive => "skip:not-a-decoding-outcome"
+    | .fail why => failKey kind why
+  if unmodelled then
+    -- library text types (datasize, zap level, url, ip) and pruned positions: judged by the Spec, not predicted
+    ("-", if verdict == "ok" then "skip:library-type" else verdict)
+  else
+    match obs with
+    | .unknown => ("-", verdict)
+    | _ => (modelObs, verdict)
 
 end Pandora.Drv.C17
